@@ -477,3 +477,117 @@ Example C06_view_store_examples :
   dict_get_chunk [3; 4] [(2, 4); (0, 4)] = Malformed /\ dict_get_chunk [3; 4] [(1, 1); (4, 4)] = Found /\
   chunk_slice ([2; 1] ++ repeat 1 2) 3 = (4, 5).
 Proof. exact ex_dict_store. Qed.
+
+(* =================================================================================================================== *)
+(* round 3: dtypes of the delivered data, graph keys, chunk-name prefixes (Model/LostKeys.v) *)
+From KV Require Import Model.LostKeys Proofs.LostKeysP.
+
+(* --- "every other element equals what was stored": the dtype is part of it --- *)
+(* Every block reaches dask's concatenation with the DECLARED dtype of its array - a stored chunk, a PlaceholderChunk
+   whether or not the window cut it (PlaceholderChunk.__getitem__), the zero fill, the DATA_LOST default chunk - ... *)
+Theorem C06_block_dtype_kept : forall a present sliced d, vfw_block_dt a present sliced d = DArr d.
+Proof. exact block_dtype_kept. Qed.
+Print Assumptions C06_block_dtype_kept.
+(* ... so what is delivered (dask takes the dtype of the FIRST block and casts every other block into it) has the declared
+   dtype and holds every value unchanged, for every non-empty list of blocks, lost or not, cut by the window or not. *)
+Theorem C06_delivered_dtype_values : forall a d bs,
+  bs <> [] -> Forall (fun b : blockspec => Forall (well_typed d) (snd b)) bs ->
+  delivered a d bs = Some (d, map snd bs).
+Proof. exact delivered_dtype_values. Qed.
+Print Assumptions C06_delivered_dtype_values.
+(* The dtype a sliced placeholder passes on is what makes it so (float64 instead: a selection whose first block is a lost
+   chunk cut by the window is delivered as float64 and a healthy complex element loses its imaginary part; the same lost
+   block in second place shows nothing) - and these serve as the non-vacuity examples. *)
+Theorem C06_sliced_placeholder_dtype_refuted :
+  delivered_with (fun _ => DT_F64) A_VIS DT_C64 [(false, true, [(0, 0)]); (true, false, [(5, 7)])]
+    = Some (DT_F64, [[(0, 0)]; [(5, 0)]]) /\
+  delivered_with (fun _ => DT_F64) A_VIS DT_C64 [(true, false, [(5, 7)]); (false, true, [(0, 0)])]
+    = Some (DT_C64, [[(5, 7)]; [(0, 0)]]) /\
+  delivered A_VIS DT_C64 [(false, true, [(0, 0)]); (true, false, [(5, 7)])]
+    = Some (DT_C64, [[(0, 0)]; [(5, 7)]]).
+Proof. exact sliced_placeholder_dtype_matters. Qed.
+Print Assumptions C06_sliced_placeholder_dtype_refuted.
+Example C06_weights_dtype : weights_dt DT_U8 DT_F32 = DT_F32 /\ (forall a b, promote a b = promote b a) /\ (forall d, promote d d = d).
+Proof. exact (conj weights_dt_stored (conj promote_comm promote_idem)). Qed.
+
+(* --- "flagged exactly where THEY were lost": which array a graph key belongs to --- *)
+(* The name get_dask_array gives a dask array (fields and token arguments regenerated from the source) determines the
+   array: with pairwise different array names, the key (name of array a, block J) resolves in the merged graph to block J
+   of array a - also when other arrays have identical chunks, dtype, index and offset (the usual MeerKAT layout). *)
+Theorem C06_graph_keys_resolve : forall arrs a r blocks J,
+  NoDup (map (fun rb => array_id (fst rb)) arrs) ->
+  nth_error arrs a = Some (r, blocks) -> In J blocks ->
+  resolve arrs r J = Some (a, J).
+Proof. exact graph_keys_resolve. Qed.
+Print Assumptions C06_graph_keys_resolve.
+(* Hence the flags computed by looking every source chunk up THROUGH the graph keys are the flags of the core model
+   (C06_flags), for every configuration and any four requests with pairwise different array names. *)
+Theorem C06_flags_through_graph_keys : forall c r0 r1 r2 r3 p,
+  NoDup (map array_id [r0; r1; r2; r3]) ->
+  model_flags_via_graph c [r0; r1; r2; r3] p = model_flags c p.
+Proof. exact flags_through_graph_keys. Qed.
+Print Assumptions C06_flags_through_graph_keys.
+(* Named by offset and token only, two arrays with identical chunks and dtype share their keys: the key of a block of
+   the first resolves to the second array (and with the generated fields to the first: the non-vacuity example). *)
+Theorem C06_names_without_array_name_refuted :
+  resolve_with (dask_name_with ["offset"%string; "token"%string] gen_token_args) [twin 1; twin 2] (fst (twin 1)) [0; 0]%nat
+    = Some (1%nat, [0; 0]%nat) /\
+  resolve [twin 1; twin 2] (fst (twin 1)) [0; 0]%nat = Some (0%nat, [0; 0]%nat).
+Proof. exact names_without_array_name_refuted. Qed.
+Print Assumptions C06_names_without_array_name_refuted.
+Theorem C06_apply_data_lost_reads_only_its_keys : forall ph1 ph2 lost orig q,
+  (forall e, In e lost -> ph1 (fst (fst e)) (snd (fst e)) = ph2 (fst (fst e)) (snd (fst e))) ->
+  apply_data_lost ph1 orig lost q = apply_data_lost ph2 orig lost q.
+Proof. intros; now apply apply_data_lost_ext. Qed.
+Print Assumptions C06_apply_data_lost_reads_only_its_keys.
+
+(* --- where the chunks are looked for: 'prefix' or (legacy layout) chunk_name of the stream's own telstate view --- *)
+(* _ensure_prefix_is_set: an explicit prefix always stays, an entry without one gets chunk_name of the view given; it
+   raises exactly when an entry has no prefix and the view has no chunk_name. *)
+Theorem C06_ensure_prefix : forall ci cn,
+  (forall r, ensure_prefix ci cn = Some r ->
+             r = map (filled_prefix cn) ci /\ Forall (fun e => pe_prefix e <> None) r) /\
+  (ensure_prefix ci cn = None <-> cn = None /\ exists e, In e ci /\ pe_prefix e = None).
+Proof. intros; split; [intros r; apply ensure_prefix_some | apply ensure_prefix_none]. Qed.
+Print Assumptions C06_ensure_prefix.
+(* _upgrade_chunk_info, keyed: every key of the improved info carries the improved entry (its prefix included), every
+   other key its original entry. *)
+Theorem C06_upgrade_entries_find : forall imp ci r k,
+  upgrade_entries ci imp = Some r ->
+  pfind k r = match pfind k (rev imp) with Some e => Some e | None => pfind k ci end.
+Proof. exact upgrade_entries_find. Qed.
+Print Assumptions C06_upgrade_entries_find.
+(* THE LEGACY LAYOUT: one attached flags stream s1 among any other archived streams, its chunk_info = a flags entry
+   WITHOUT 'prefix', chunk_name p1 in its own <cbid>_<s1> namespace: the chunks of `flags` are looked for under p1
+   whatever chunk_name / prefixes the L0 stream has, every other array where the L0 chunk_info says. *)
+Theorem C06_legacy_flags_stream_prefix : forall ts l0 pre s1 post ci0 ci0' inf p1,
+  let view0 := view_capture_stream root_view l0 in
+  vget (t_chunk_info ts) view0 = Some ci0 ->
+  ensure_prefix ci0 (vget (t_chunk_name ts) view0) = Some ci0' ->
+  t_archived ts = Some (pre ++ s1 :: post) ->
+  Forall (fun s => qualifies ts view0 l0 s = Some false) pre ->
+  Forall (fun s => qualifies ts view0 l0 s = Some false) post ->
+  qualifies ts view0 l0 s1 = Some true ->
+  vget (t_chunk_info ts) (view_capture_stream view0 s1) = Some [(FLAGS_KEY, None, inf)] ->
+  t_chunk_name ts (0, s1) = Some p1 ->
+  (forall o, pfind FLAGS_KEY ci0' = Some o ->
+             skipn gen_upgrade_compares_shape_from (i_shape inf) =
+             skipn gen_upgrade_compares_shape_from (i_shape (pe_info o))) ->
+  exists r, source_entries ts l0 true = Some r /\
+            pfind FLAGS_KEY r = Some (FLAGS_KEY, Some p1, inf) /\
+            forall k, k <> FLAGS_KEY -> pfind k r = pfind k ci0'.
+Proof. exact legacy_flags_stream_prefix. Qed.
+Print Assumptions C06_legacy_flags_stream_prefix.
+Example C06_legacy_example :
+  source_entries ex_ts 0 true = Some [(0, Some 10, ex_info 6); (1, Some 11, ex_info 8); (2, Some 12, ex_info 6)] /\
+  source_entries ex_ts 0 false = Some [(0, Some 10, ex_info 6); (1, Some 10, ex_info 6); (2, Some 12, ex_info 6)].
+Proof. exact legacy_example. Qed.
+Theorem C06_round3_translated_source :
+  gen_out_name_fields = ["array_name"%string; "offset"%string; "token"%string] /\
+  gen_token_args = ["self"%string; "chunks"%string; "dtype"%string; "index"%string] /\
+  gen_flags_prefix_from_stream_view = true /\
+  gen_view_order = ["capture_stream"%string; "capture_block"%string; "stream"%string] /\
+  (forall d, gen_placeholder_slice_dtype d = d /\ gen_placeholder_ctor_dtype d = d /\
+             gen_default_zero_dtype d = d /\ gen_default_chunk_dtype d = d).
+Proof. repeat split; reflexivity. Qed.
+Print Assumptions C06_round3_translated_source.
